@@ -318,7 +318,7 @@ def prog():
         return d
 
 
-def _qap_replay(self, ob, cfg):
+def _qap_replay(self, ob, cfg, kind="qap"):
     """Replays a refuted C12 obligation: CPython runs the same client program on the real runtime with the real
     qaptools backend (PYSNARK_BACKEND=qaptools, external executables failing) in a scratch directory, and the failed
     clause is re-evaluated on the text files it wrote."""
@@ -326,11 +326,13 @@ def _qap_replay(self, ob, cfg):
     from pyvc.replay import REPO, ROOT
     tmp = tempfile.mkdtemp(prefix="pyvc_qap_")
     try:
-        req = dict(root=ROOT, repo=REPO, function=self.name, cfg=cfg, clause=ob["name"], model=ob.get("model") or {})
+        req = dict(root=ROOT, repo=REPO, function=self.name, cfg=cfg, clause=ob["name"], model=ob.get("model") or {}, kind=kind)
         json.dump(req, open(os.path.join(tmp, "req.json"), "w"), default=str)
         from .selection_c import make_stub_env
         stubs, env = make_stub_env(tmp)            # a `qapgen` on PATH (it fails when run): the backend only loads if one is found
-        env.update(PYSNARK_BACKEND="qaptools", PYTHONHASHSEED="0")
+        env.update(PYTHONHASHSEED="0")
+        if kind == "qap":
+            env["PYSNARK_BACKEND"] = "qaptools"
         p = subprocess.run(["python3-vt", os.path.join(ROOT, "pyvc", "native_qap.py"), os.path.join(tmp, "req.json"), os.path.join(tmp, "out.json")],
                            cwd=tmp, env=env, stdout=subprocess.PIPE, stderr=subprocess.STDOUT, timeout=300)
         if not os.path.exists(os.path.join(tmp, "out.json")):
